@@ -184,3 +184,24 @@ if live_finding("F02a"):
         return v
 
     gp.returns = _vc_excluding_f02a
+
+
+def _n_mode(name):
+    def f():
+        from schemathesis.generation import GenerationMode
+
+        return getattr(GenerationMode, name)
+
+    return f
+
+
+def _n_part_is_present(case, kind):
+    from schemathesis.core import NOT_SET
+
+    if kind.name == "BODY":
+        return case.body is not NOT_SET
+    return getattr(case, PRESENT[kind.name]) is not None
+
+
+NATIVE = {"helpers": {"is_plain_string": lambda schema: len(schema) == 1 and schema.get("type") == "string", "NEGATIVE": _n_mode("NEGATIVE"), "POSITIVE": _n_mode("POSITIVE"),
+                      "part_is_present": _n_part_is_present}}
